@@ -1,5 +1,7 @@
 // Native battery for C12 on the REAL code: translated surfaces keep their point set.
 //   c12 translate_sq_battery : for simple quadrics with integer coefficients (exact in double), f'(x + t) == f(x)
+//   c12 quadratic_battery    : every distance QuadraticSolver reports is > 0 (or +inf), on a grid of coefficients incl. zeros
+//   c12 quadratic_along <half_b bits> <c bits> : one call of solve_along_surface with the verifier's inputs
 #include <cstdio>
 #include <cstdlib>
 #include <string>
@@ -8,6 +10,9 @@
 #include "orange/surf/Sphere.hh"
 #include "orange/transform/Translation.hh"
 #include "orange/surf/detail/SurfaceTranslator.hh"
+#include "orange/surf/detail/QuadraticSolver.hh"
+#include <cstring>
+#include <cstdint>
 // the real implementation files, compiled from /repo's current text
 #include "orange/surf/detail/SurfaceTranslator.cc"
 #include "orange/surf/ConeAligned.cc"
@@ -29,8 +34,49 @@ static double eval(SimpleQuadric const& s, Real3 const& x)
     return v;
 }
 
+static double from_bits(char const* b)
+{
+    std::uint64_t u = 0;
+    for (char const* p = b; *p; ++p) u = (u << 1) | std::uint64_t(*p == '1');
+    double d;
+    std::memcpy(&d, &u, sizeof d);
+    return d;
+}
+
+static int check_dist(char const* what, double a, double hb, double c, double d)
+{
+    if (d > 0) return 0;   // positive or +inf
+    std::printf("REPRODUCED %s(a=%g, half_b=%g, c=%g) reports intersection distance %g (not positive)\n", what, a, hb, c, d);
+    return 1;
+}
+
+static int quadratic_battery()
+{
+    using detail::QuadraticSolver;
+    double const vals[] = {-2, -0.75, -1e-20, -0.0, 0.0, 1e-20, 0.5, 3};
+    int bad = 0;
+    for (double a : {0.0, 1e-20, 1.0, -1.0}) for (double hb : vals) for (double c : vals) for (SurfaceState s : {SurfaceState::off, SurfaceState::on})
+    {
+        if (bad) break;
+        auto x = QuadraticSolver::solve_general(a, hb, c, s);
+        bad |= check_dist(s == SurfaceState::off ? "QuadraticSolver::solve_general[off]" : "QuadraticSolver::solve_general[on]", a, hb, c, x[0]);
+        bad |= check_dist(s == SurfaceState::off ? "QuadraticSolver::solve_general[off]" : "QuadraticSolver::solve_general[on]", a, hb, c, x[1]);
+    }
+    if (!bad) std::printf("ok quadratic_battery: every reported distance is positive\n");
+    return bad;
+}
+
 int main(int argc, char** argv)
 {
+    if (argc >= 2 && std::string(argv[1]) == "quadratic_battery") return quadratic_battery();
+    if (argc >= 4 && std::string(argv[1]) == "quadratic_along")
+    {
+        double hb = from_bits(argv[2]), c = from_bits(argv[3]);
+        auto x = detail::QuadraticSolver::solve_along_surface(hb, c);
+        int bad = check_dist("QuadraticSolver::solve_along_surface", 0, hb, c, x[0]) | check_dist("QuadraticSolver::solve_along_surface", 0, hb, c, x[1]);
+        if (!bad) std::printf("not reproduced\n");
+        return bad;
+    }
     if (argc < 2 || std::string(argv[1]) != "translate_sq_battery") return 2;
     int bad = 0;
     int const vals[] = {-3, -1, 0, 1, 2};
